@@ -359,6 +359,22 @@ def check_case(ctx: runner.Ctx, case):  # noqa: C901, PLR0912, PLR0915
     if case["mode"] == "change":
         if na == nb:
             ctx.violation("different_types_collapse", (steps[0][0],), case, f"{head}: both normalise to {na!r}")
+            return None
+        # a parametrised hint / Literal used as a predicate matches "the same type and nothing else": the two different types
+        # must not match each other's locations (Literal[0, 1] vs Literal[False, True], List[int] vs List[str] ...)
+        if typing.get_origin(hint_a) is not None and typing.get_origin(hint_b) is not None:   # (Tuple[()] has an origin, no args)
+            try:
+                ca, cb = create_loc_stack_checker(hint_a), create_loc_stack_checker(hint_b)
+                med = _DirectMediator()
+                cross = (ca.check_loc_stack(med, LocStack(TypeHintLoc(type=hint_b))),
+                         cb.check_loc_stack(med, LocStack(TypeHintLoc(type=hint_a))))
+            except Exception:  # noqa: BLE001  (not every hint is a valid predicate)
+                ctx.count("hint_not_usable_as_predicate")
+                return None
+            ctx.count("predicate_cross_probes")
+            if any(cross):
+                ctx.violation("different_types_match_as_predicates", (steps[0][0],), case,
+                              f"{head}: pred(a) on a location typed b -> {cross[0]}, pred(b) on a location typed a -> {cross[1]}")
         return None
     # ---- meaning preserving
     if na != nb:
@@ -528,10 +544,37 @@ def check_implicit(ctx: runner.Ctx, case):
                           f"predicate {pred!r} on a location of type {loc_tp!r}: {ok!r} (the two spell one type)")
 
 
+TUPLE_LENGTH_PAIRS = [(["tuple", [], "typing"], ["tuple", [["int"]], "typing"]), (["tuple", [], "builtin"], ["tuple", [["int"], ["str"]], "builtin"]),
+                      (["tuple", [], "typing"], ["vtuple", ["int"], "typing"]), (["tuple", [["int"]], "typing"], ["tuple", [["int"], ["int"]], "typing"])]
+LITERAL_LOOKALIKE_PAIRS = [([0, 1], [False, True]), ([0], [False]), ([1], [True]), ([0, 1, "x"], [False, True, "x"]),
+                           ([1, 2, 3, 4, 5], [True, 2, 3, 4, 5]), ([0, "a", "b", "c", "d"], [False, "a", "b", "c", "d"])]
+
+
+def lookalike_cases():
+    """Literals that differ only by bool / int look-alikes, bare and one level down: different types at every level."""
+    for va, vb in LITERAL_LOOKALIKE_PAIRS:
+        for wrap in ("bare", "list", "dict_value", "tuple"):
+            a, b = ["literal", va], ["literal", vb]
+            if wrap == "list":
+                a, b = ["list", a, "typing"], ["list", b, "typing"]
+            elif wrap == "dict_value":
+                a, b = ["dict", ["str"], a, "typing"], ["dict", ["str"], b, "typing"]
+            elif wrap == "tuple":
+                a, b = ["tuple", [["int"], a], "typing"], ["tuple", [["int"], b], "typing"]
+            yield {"mode": "change", "a": a, "b": b, "steps": [["literal_bool_int_table", 0 if wrap == "bare" else 1]],
+                   "probes": [], "values": [], "order": False}
+    for a, b in TUPLE_LENGTH_PAIRS:
+        yield {"mode": "change", "a": a, "b": b, "steps": [["tuple_length_table", 0]], "probes": [], "values": [], "order": False}
+        yield {"mode": "change", "a": ["list", a, "typing"], "b": ["list", b, "typing"], "steps": [["tuple_length_table", 1]],
+               "probes": [], "values": [], "order": False}
+
+
 def explore(ctx: runner.Ctx):
     if ctx.shard == 0:
         for name in IMPLICIT:
             check_case(ctx, {"mode": "implicit", "name": name})
+        for c in lookalike_cases():
+            runner.guarded(ctx, lambda k: check_case(ctx, k), c)
     ctx.given(st_case(), lambda c: check_case(ctx, c), ctx.budget(4000, 300000))
 
 
